@@ -89,7 +89,7 @@ Definition device_check (d : device) (reqtype devnonce mhdr : N) (pt : list N) :
   let netid := firstn 3 (skipn 3 body) in
   let devaddr := firstn 4 (skipn 6 body) in
   let dls := nth 10 body 0 in
-  let rxd := nth 11 body 0 in
+  let rxd := nth 11 body 0 mod 16 in             (* RxDelay: bits 3..0, bits 7..4 RFU, ignored *)
   let cfl := if Nat.eqb (length body) 28 then Some (skipn 12 body) else None in
   let optneg := negb (dls / 128 =? 0) in
   let expect :=
